@@ -130,6 +130,27 @@ static std::string absent_lookups(const N& n) {
   return "";
 }
 
+// every member name must be found, and (distinct names) at its own position, through every lookup overload
+template <typename N>
+static std::string present_lookups(const N& n) {
+  if (!n.IsObject()) return "";
+  size_t idx = 0;
+  for (auto it = n.MemberBegin(); it != n.MemberEnd(); ++it, ++idx) {
+    StringView k = it->name.GetStringView();
+    bool dup = false;
+    for (auto jt = n.MemberBegin(); jt != n.MemberEnd(); ++jt) if (jt != it && jt->name.GetStringView() == k) dup = true;
+    auto f = n.FindMember(k);
+    if (f == n.MemberEnd()) return "FindMember does not find member " + std::to_string(idx) + " by its own name";
+    if (!(f->name.GetStringView() == k)) return "FindMember returns a member with another name";
+    if (!dup && f != it) return "FindMember returns another position for a distinct name";
+    auto g = n.FindMember(k.data(), k.size());
+    if (g != f && !dup) return "FindMember(ptr,len) disagrees with FindMember(view)";
+    if (!n.HasMember(k)) return "HasMember false for a present name";
+    if (!dup && &n[k] != &it->value) return "operator[] returns another node for a present name";
+  }
+  return "";
+}
+
 template <typename A, typename B>
 static int run(const char* logpath, vh::Cases& cs, vh::Progress& pg, size_t start) {
   Runner<A> R;
@@ -201,6 +222,8 @@ static int run(const char* logpath, vh::Cases& cs, vh::Progress& pg, size_t star
     if (r[2] == "removemember" && (ret ? "1" : "0") != r[9]) { vh::fail(i, "retval", "RemoveMember returned " + std::to_string(ret)); bad = true; }
     std::string al = absent_lookups(*R.root);
     if (al.empty()) al = absent_lookups(*R.aux);
+    if (al.empty()) al = present_lookups(*R.root);
+    if (al.empty()) al = present_lookups(*R.aux);
     if (!al.empty()) { vh::fail(i, "lookup", al); bad = true; }
     if (R.root->IsContainer() && R.root->Size() > R.root->Capacity()) { vh::fail(i, "capacity", "Size() > Capacity()"); bad = true; }
     // C18: equality
